@@ -186,7 +186,9 @@ func c02ConstRangeSources() []c02Src {
 	pairs := [][2]string{{"-1", "-1"}, {"-1", "0"}, {"-1", "1"}, {"0", "-1"}, {"0", "0"}, {"0", "1"}, {"1", "-1"}, {"1", "0"}, {"1", "1"}, {"1", "3"}, {"3", "1"}, {"5", "1"},
 		{"1", "999999"}, {"1", "1000000"}, {"1", "1000001"}, {"0", "999999"}, {"0", "1000000"}, {"-1", "999998"}, {"-1", "999999"}, {"2", "1000001"}, {"2", "1000002"},
 		{"1", "600000"}, {"1 + 1", "2 * 3"}, {"1", "I"}, {"I", "5"}, {"-2", "2"}, {"9223372036854775806", "9223372036854775807"},
-		{"(0-9223372036854775807-1)", "9223372036854775807"}, {"(0-9223372036854775807-1)", "(0-9223372036854775807)"}, {"0", "9223372036854775807"}}
+		{"(0-9223372036854775807-1)", "9223372036854775807"}, {"(0-9223372036854775807-1)", "(0-9223372036854775807)"}, {"0", "9223372036854775807"},
+		// DESCENDING ranges whose distance overflows (the wrapped size is positive)
+		{"9223372036854775807", "(0-9223372036854775807-1)"}, {"9223372036854775806", "(0-9223372036854775807)"}, {"5", "(0-9223372036854775807)"}, {"9223372036854775807", "-2"}}
 	for _, p := range pairs {
 		r := p[0] + ".." + p[1]
 		big := strings.Contains(r, "99999") || strings.Contains(r, "00000") || strings.Contains(r, "922337") || strings.Contains(r, "00001") || strings.Contains(r, "00002")
